@@ -164,7 +164,13 @@ func (c *trCtx) funcLit(x *ast.FuncLit) string {
 	c.externals = append(c.externals, cc.externals...)
 	c.ntmp, c.nloop, c.norder, c.nmark = cc.ntmp, cc.nloop, cc.norder, cc.nmark
 	c.fn.deps = append(c.fn.deps, cc.fn.deps...)
-	return "(some (fun " + strings.Join(ps, " ") + " => " + strings.Join(term, " ") + "))"
+	sep := " "
+	for _, l := range term {
+		if strings.HasPrefix(strings.TrimSpace(l), "let ") {
+			sep = "\n" // a `let` needs its line break (trans_units_mapping.go: the literal that account.Shorten returns)
+		}
+	}
+	return "(some (fun " + strings.Join(ps, " ") + " => " + strings.Join(term, sep) + "))"
 }
 
 func (c *trCtx) nlit() int {
@@ -372,6 +378,9 @@ func (t *trTranslator) typeHasFunc(ty types.Type, depth int) bool {
 	}
 	if trIsTreeNode(ty) {
 		return true // a tree of multimap nodes: no derived equality either
+	}
+	if trIsRegexpPtr(ty) {
+		return true // a compiled regular expression is the predicate MatchString (trans_units_mapping.go)
 	}
 	switch x := ty.Underlying().(type) {
 	case *types.Signature:
